@@ -65,7 +65,7 @@ RULE = ("PRNG histories over 2-3 backends, up to 6 connections, rooms {roomA, ro
         "control messages of all four recipient kinds (incl. unknown ids, forged sender fields), disconnect, resume "
         "(valid, public id, garbage, takeover), bye, housekeeping levels, virtual sessions add/remove/incall from internal "
         "and ordinary clients, room API calls (invite, disinvite, delete, message, incall, participants with "
-        "permissions, switchto), session limits; non-trivial = at least five messages delivered to connections; "
+        "permissions, switchto), session limits; every second history starts with a scripted opening (virtual session across backends, duplicate virtual id, end of the internal client, repeated resume, user id from the room reply, shared Nextcloud session id, session limit, takeover) and three in four end with a concurrent step (`par`: racing registrations / first joins / bye vs. hello), plus a battery of race-only cases; non-trivial = at least five messages delivered to connections; "
         "distinct = distinct op lists")
 
 TRUSTED = ["gorilla/websocket, net/http, encoding/json + easyjson (messages travel over real websockets)",
@@ -75,4 +75,5 @@ TRUSTED = ["gorilla/websocket, net/http, encoding/json + easyjson (messages trav
 
 ASSUME = ["single hub: no gRPC peers, no external NATS, no MCU, no federation",
           "outputs of one step are compared per connection as a multiset (the relative order of messages from different bus subjects is not fixed)",
-          "backend replies (auth, room join, session add) are parameters of the ops; auth always succeeds here (C01 covers credentials)"]
+          "backend replies (auth, room join, session add) are parameters of the ops; auth always succeeds here (C01 covers credentials)",
+          "a concurrent step is judged on the tables at rest only: they must equal the model's for some order of the racing requests"]
